@@ -88,6 +88,8 @@ Choices ==
     [] Family = "loop" ->
          {[Node(0, "loop") EXCEPT !.form = "count", !.cnt = c] : c \in 0..3}
          \cup {[Node(0, "loop") EXCEPT !.form = "count", !.cnt = c, !.lv = "a", !.start = 1, !.step = 2] : c \in 1..3}
+         \* <for var="a" data="1, 2, .., c">: the items are 1..c
+         \cup {[Node(0, "loop") EXCEPT !.form = "for", !.cnt = c, !.lv = "a", !.start = 1, !.step = 1] : c \in 1..3}
          \cup {[Node(0, "loop") EXCEPT !.form = "while", !.cond = Lt("b", c)] : c \in {0, 2, 3}}
          \cup {[Node(0, "loop") EXCEPT !.form = "until", !.cond = Ge("b", c)] : c \in {0, 2, 3}}
          \cup {[Node(0, "leaf") EXCEPT !.rd = r, !.ref = p] : r \in {"a", "b"}, p \in {0, -1}}
@@ -395,7 +397,7 @@ LoopTest ==
     /\ Running /\ Top.t = "el" /\ Top.ph = "test"
     /\ LET f == Top
            nd == f.nd
-           go == CASE nd.form = "count" -> f.it < nd.cnt
+           go == CASE nd.form \in {"count", "for"} -> f.it < nd.cnt
                    [] nd.form = "while" -> EvalE(nd.cond, scopes) # 0
                    [] OTHER -> TRUE
        IN IF go
